@@ -138,9 +138,17 @@ def main():
             if topo in ("ldn", "udn", "udn2", "cdn", "lsn", "usn") and len(orX_v) >= 1 and nR >= 49:
                 pa_, pb_ = fam.psi_axis, fam.psi_bdry
                 pn2 = (orX_v[1][2] - pa_) / (pb_ - pa_) if len(orX_v) > 1 else None
-                for trial_sol in ([pn2 - 0.004, pn2 + 0.004] if (pn2 is not None and 1.008 < pn2 < 1.15) else [1.2]):
+                trials_ = [(x, False) for x in ([pn2 - 0.004, pn2 + 0.004] if (pn2 is not None and 1.008 < pn2 < 1.15) else [1.2])]
+                if pn2 is not None and 1.008 < pn2 < 1.15:
+                    # the same two SOL edges given as the number psi_sol (which overrides psinorm_sol),
+                    # with psinorm_sol set on the OTHER side of the second X-point
+                    trials_ += [(pn2 - 0.004, True), (pn2 + 0.004, True)]
+                for trial_sol, as_psi in trials_:
                     opts = dict(families.BASE)
                     opts.update(psinorm_sol=float(trial_sol), nx_inter_sep=1 if pn2 is not None else 0)
+                    if as_psi:
+                        ps_ = float(pa_ + trial_sol * (pb_ - pa_))
+                        opts.update(psinorm_sol=float(2 * pn2 - trial_sol), psi_sol=ps_, psi_sol_inner=ps_)
                     wall = families.make_wall({"kind": "box"})
                     nexec += 1
                     try:
@@ -150,7 +158,7 @@ def main():
                         continue
                     inside = [x for x in orX_v if 1.2 < x[0] < 1.8 and -0.5 < x[1] < 0.5]
                     exp_n = sum(1 for x in inside if (x[2] - pa_) / (pb_ - pa_) < trial_sol)
-                    cls2 = "decision|%s" % ("double" if exp_n == 2 else "single")
+                    cls2 = "decision|%s%s" % ("double" if exp_n == 2 else "single", "|SOL edge given as psi_sol" if as_psi else "")
                     acc.add("single/double null by X-points inside the wall and within psinorm_sol", cls2, abs(len(eq.x_points) - exp_n), 0, where=dict(where, psinorm_sol=trial_sol), sig="code %d oracle %d" % (len(eq.x_points), exp_n))
                     acc.add("psi_axis / psi_bdry of the equilibrium", cls2, max(abs(eq.psi_axis - pa_), abs(eq.psi_bdry - pb_)) / abs(pb_ - pa_), 1e-3 * (33.0 / min(nR, nZ)) ** 2, where=where)
                     # legs: inner strike point has the smaller major radius; first/last region point order
